@@ -205,6 +205,12 @@ func (p *provider) Stop(ctx context.Context) error {
 }
 
 func (p *provider) filter(obj any) bool {
+	// if a deletion has been missed by the watch and is noticed by a re-list only,
+	// the last known state of the object is delivered wrapped into a tombstone
+	if tombstone, ok := obj.(cache.DeletedFinalStateUnknown); ok {
+		obj = tombstone.Obj
+	}
+
 	// should never be of a different type. ok if panics
 	rs := obj.(*v1alpha4.RuleSet) // nolint: forcetypeassert
 
@@ -296,6 +302,10 @@ func (p *provider) deleteRuleSet(obj any) {
 	}
 
 	p.l.Info().Msg("Rule set deletion received")
+
+	if tombstone, ok := obj.(cache.DeletedFinalStateUnknown); ok {
+		obj = tombstone.Obj
+	}
 
 	// should never be of a different type. ok if panics
 	rs := obj.(*v1alpha4.RuleSet) // nolint: forcetypeassert
@@ -393,7 +403,12 @@ func (p *provider) updateStatus(
 	// if there is an error, it is always of the below type
 	var statusErr *errors2.StatusError
 
-	errors.As(err, &statusErr)
+	if !errors.As(err, &statusErr) {
+		// not an error reported by the api server, e.g. the api server could not be reached
+		p.l.Warn().Err(err).Msgf("Failed updating RuleSet status")
+
+		return
+	}
 
 	switch statusErr.ErrStatus.Code {
 	case http.StatusNotFound:
